@@ -126,7 +126,12 @@ func DecodePointer(reader io.Reader) (*Pointer, error) {
 // blob's data will be returned, along with a parse error.
 func DecodeFrom(reader io.Reader) (*Pointer, io.Reader, error) {
 	buf := make([]byte, blobSizeCutoff)
-	n, err := reader.Read(buf)
+	// A single Read may return fewer bytes than are available (e.g. from a
+	// pipe), so keep reading until the buffer is full or the stream ends.
+	n, err := io.ReadFull(reader, buf)
+	if err == io.ErrUnexpectedEOF {
+		err = io.EOF
+	}
 	buf = buf[:n]
 
 	var contents io.Reader = bytes.NewReader(buf)
